@@ -1,5 +1,6 @@
 """C02 - bad server responses surface only as documented pywbem errors."""
 import ast
+import re
 
 from ..model import (AnalysisError, walk_no_nested, dotted, norm, const_str,
                      fold_const, NotConst)
@@ -96,6 +97,7 @@ def required_attrs_table(repo):
 
 
 def run(repo, rep, tier):
+    operation_envelopes_agree(repo, rep, 'C02.R8', 'handlers')
     r1 = rep.rule('C02.R1', 'only pywbem.Error escapes the reply path '
                   '(raises, data-dependent asserts)')
     r3 = rep.rule('C02.R3', 'attribute lookups are covered by check_node')
@@ -1108,3 +1110,58 @@ def _r2c_tag_confusion(repo, rep):
     if r.sites < 3:
         raise AnalysisError('only %d element-name tests on response '
                             'children found' % r.sites)
+
+
+def operation_envelopes_agree(repo, rep, rid, which):
+    """C02.R8 / C19.R10: all operations wrap the request in the same
+    exception handlers (C02: parse errors get request_data/response_data
+    attached in every operation) and the same finally clause (C19: timer
+    stopped with the exception, result and exception staged for the
+    recorders).  The operation name and the result variable are slots; a
+    sibling whose clause differs from what all the others have is reported."""
+    from .. import siblings as S
+    r = rep.rule(rid, 'all operations have the same %s as their siblings'
+                 % ('exception handlers' if which == 'handlers'
+                    else 'finally clause'))
+    ops = operations(repo)
+    fam = [(op.func.name, op) for op in ops if op.main_try is not None]
+    if len(fam) < 30:
+        raise AnalysisError('%s: only %d operations with a main try'
+                            % (rid, len(fam)))
+
+    def part(op):
+        t = op.main_try
+        return list(t.handlers) if which == 'handlers' else list(t.finalbody)
+
+    def slots(name, op):
+        out = [(r'\b%s\b' % re.escape(name), '<OP>')]
+        if which == 'finally':
+            # the result variable: first argument of ...stage_result / the
+            # variable returned by the operation
+            for c in ast.walk(ast.Module(body=list(op.main_try.finalbody),
+                                         type_ignores=[])):
+                if isinstance(c, ast.Call) and \
+                        (dotted(c.func) or '').endswith(
+                            'operation_recorder_stage_result') and c.args:
+                    out.append((re.escape(ast.unparse(c.args[0])), '<RESULT>'))
+        return out
+    major, dev, n = S.compare(fam, part, slots)
+    r.sites += n
+    for name, op in fam:
+        r.functions.add(op.func.fq)
+    r.ob(not dev, which, {'operations': n, 'deviating': [d[0] for d in dev]})
+    for name, text in dev:
+        op = dict(fam)[name]
+        mine, theirs = S.first_difference(text, major)
+        rep.finding(r, op.func.qualname, '%s: %s' % (which, mine[:70]),
+                    'sibling-drift', OPS, op.main_try.lineno,
+                    'the %s of %s differ from those of the other %d '
+                    'operations: it has `%s` where they have `%s`'
+                    % ('exception handlers' if which == 'handlers'
+                       else 'finally clause', name, n - len(dev), mine[:90],
+                       theirs[:90]) + (
+                        ' - an XMLParseError then reaches the caller '
+                        'without request_data / response_data' if
+                        which == 'handlers' else
+                        ' - the statistics / recorders see this operation '
+                        'differently from its siblings'))
